@@ -362,6 +362,8 @@ class EPoll(BasePoller):
             self._map[fileno] = fd
         else:
             super().discard(fd)
+            with contextlib.suppress(KeyError):
+                del self._map[fileno]
 
     def addReader(self, source, fd):
         super().addReader(source, fd)
